@@ -53,7 +53,7 @@ type BeaconState struct {
 	NextWithdrawalIndex          common.WithdrawalIndex `json:"next_withdrawal_index" yaml:"next_withdrawal_index"`
 	NextWithdrawalValidatorIndex common.ValidatorIndex  `json:"next_withdrawal_validator_index" yaml:"next_withdrawal_validator_index"`
 	// Deep history valid from Capella onwards
-	HistoricalSummaries capella.HistoricalSummaries `json:"historical_summaries"`
+	HistoricalSummaries capella.HistoricalSummaries `json:"historical_summaries" yaml:"historical_summaries"`
 	// [New in Electra:EIP6110]
 	DepositRequestsStartIndex Uint64View `json:"deposit_requests_start_index" yaml:"deposit_requests_start_index"`
 	// [New in Electra:EIP7251]
